@@ -26,7 +26,7 @@ func c16NumCases(env *core.Env) int {
 	if env.Thorough() {
 		return 4000
 	}
-	return 300
+	return 800
 }
 
 func c16HistoryLen(env *core.Env) int {
